@@ -99,6 +99,10 @@ pub struct Env {
     pub inject: Vec<(usize, String)>,
     /// evaluate tree-builder state invariants at every suspension (C04)
     pub invariants: bool,
+    /// (suspension index, role): a script detaches the node the tree builder holds in that role
+    /// (0 form pointer, 1 head pointer, 2 last active formatting element, 3 current node,
+    /// 4 second node from the top of the stack, 5 first active formatting element)
+    pub detach_role: Vec<(usize, u8)>,
 }
 
 #[derive(Default)]
@@ -112,6 +116,8 @@ pub struct TreeOut {
     /// number of attached elements at each suspension (domain of the detach choice)
     pub attached_at: Vec<usize>,
     pub collected: usize,
+    /// for every entry of env.detach_role: was a node actually detached
+    pub role_detached: Vec<bool>,
     pub sink: Option<MSink>,
     pub tb_key: String,
     pub tok_key: String,
@@ -252,6 +258,27 @@ pub fn run_tree(cfg: &TreeCfg, sched: &[Feed], env: &Env, end: bool) -> TreeOut 
                 if let Some(&n) = attached.get(*k) {
                     sink.script_detach(n);
                 }
+            }
+        }
+        for (at, role) in &env.detach_role {
+            if *at == susp {
+                let d = p.tokenizer.sink.verif_dump();
+                let target: Option<usize> = match role {
+                    0 => d.form_elem,
+                    1 => d.head_elem,
+                    2 => d.active_formatting.iter().rev().flatten().next().map(|x| x.0),
+                    3 => d.open_elems.last().copied(),
+                    4 => d.open_elems.iter().rev().nth(1).copied(),
+                    _ => d.active_formatting.iter().flatten().next().map(|x| x.0),
+                };
+                let mut done = false;
+                if let Some(n) = target {
+                    if sink.dom.borrow().nodes[n].parent.is_some() && !sink.dom.borrow().is_html(n, "html") {
+                        sink.script_detach(n);
+                        done = true;
+                    }
+                }
+                out.role_detached.push(done);
             }
         }
         if env.gc {
